@@ -17,6 +17,10 @@ type c07Case struct {
 	Idle   Sample   `json:"idle"`    // (a) app-limited, non-drop sample; in-flight = Idle.Inf % bound
 	RunRTT int64    `json:"run_rtt"` // (b) constant RTT used when no baseline is set (always for gradient2)
 	AIMDN  int      `json:"aimd_n"`
+	// BelowFloor (gradient, gradient2): the configured initial estimate lies below the queue allowance (a valid
+	// configuration: min <= initial <= max, allowance <= max). Nothing is claimed about drops or growth from such a
+	// state, but the demand gate is unconditional: idle, drop-free samples must leave the estimate where it is.
+	BelowFloor []Sample `json:"below_floor,omitempty"`
 }
 
 func genC07(t *rapid.T) c07Case {
@@ -55,6 +59,28 @@ func genC07(t *rapid.T) c07Case {
 		c.RunRTT = 0 // a coarse clock: the constant RTT of the healthy run is 0 (RTT >= 0 is the stated domain)
 	}
 	c.AIMDN = rapid.IntRange(1, 30).Draw(t, "aimdN")
+	if (c.Cfg.Algo == "gradient" || c.Cfg.Algo == "gradient2") && c.Cfg.Ctor == "" && len(c.Cfg.Unset) == 0 && rapid.IntRange(0, 3).Draw(t, "belowFloor") == 0 {
+		q := c.Cfg.effectiveQueue()
+		lo := c.Cfg.Min
+		if lo < 2 {
+			lo = 2 // an estimate of 1 has no in-flight value below its half
+		}
+		var cand []int
+		for v := lo; v <= c.Cfg.Max && v < 64; v++ {
+			if v < q(v) {
+				cand = append(cand, v)
+			}
+		}
+		if len(cand) > 0 {
+			c.Cfg.Initial = rapid.SampledFrom(cand).Draw(t, "initialBelowFloor")
+			c.Cfg.ProbeInterval = -1 // a probe re-bases the estimate by design; it is not a response to the sample
+			c.Prefix = nil
+			n := rapid.IntRange(1, 12).Draw(t, "nIdle")
+			for i := 0; i < n; i++ {
+				c.BelowFloor = append(c.BelowFloor, Sample{RTT: genRTT().Draw(t, "bfRTT"), Inf: rapid.IntRange(0, 1<<20).Draw(t, "bfInf")})
+			}
+		}
+	}
 	return c
 }
 
@@ -68,6 +94,21 @@ func runC07(_ *testing.T, c c07Case) kit.Outcome {
 			return inf < est
 		}
 		return 2*inf < est
+	}
+	for i, s := range c.BelowFloor {
+		before := b.Outer.EstimatedLimit()
+		half := (before + 1) / 2
+		if half <= 0 {
+			break
+		}
+		inf := s.Inf % half
+		b.Outer.OnSample(0, s.RTT, inf, false)
+		if after := b.Outer.EstimatedLimit(); after > before {
+			return kit.Viol(algo+":idle-raised-below-allowance", "estimate %d lies below the queue allowance %d; idle sample %d (rtt=%d in-flight=%d, no drop) raised it to %d", before, q(before), i, s.RTT, inf, after)
+		}
+	}
+	if len(c.BelowFloor) > 0 {
+		return kit.Outcome{NonTrivial: true, Labels: []string{"algo:" + algo, "below-allowance-idle"}}
 	}
 	for _, s := range c.Prefix {
 		before := b.Outer.EstimatedLimit()
